@@ -279,6 +279,20 @@ def _name_folded_whole(name: str, fn: FuncInfo) -> bool:
     return False
 
 
+def _def_calls(tree: Tree, fn: FuncInfo, rd: RD, expr: ast.AST) -> set[str]:
+    """Resolved callees (and bare callee names) in ``expr`` and in everything it derives from."""
+    out: set[str] = set()
+    nodes = [expr] + [d.value for d in rd.closure(rd.uses(expr)) if d.value is not None]
+    for n in nodes:
+        for c in ast.walk(n):
+            if isinstance(c, ast.Call):
+                callee = tree.callee(c, fn)
+                if callee:
+                    out.add(callee)
+                out.add(unparse(c.func).split(".")[-1])
+    return out
+
+
 def check_products(ctx: Check, tree: Tree) -> None:
     """coefficient x product(nodes) x prefactor; |coherent sum|^2 ; D x dynamics (x CG)."""
     seq = tree.func(f"{BUILDER}.__formulate_sequential_decay")
@@ -286,43 +300,55 @@ def check_products(ctx: Check, tree: Tree) -> None:
     rets = [r for r, _ in rd.returns]
     if len(rets) != 1:
         raise AnalysisError("__formulate_sequential_decay: one return expected")
-    closure = rd.closure(rd.uses(rets[0].value))
-    names = {d.name for d in closure}
-    calls = "".join(unparse(d.value) for d in closure if d.value is not None)
-    ok = {"sequential_amplitudes", "partial_decays"} <= names and "__generate_amplitude_coefficient" in calls
+    calls = _def_calls(tree, seq, rd, rets[0].value)
+    ok = "reduce" in calls and "__generate_amplitude_coefficient" in calls and "_formulate_partial_decay" in calls
     ctx.verdict(ok, "R-FOLD", f"{seq.qual}::returns-product", tree.loc(rets[0]),
-                "sequential amplitude = coefficient x reduce(mul, partial decays of all nodes) [x prefactor]", None if ok else sorted(names))
-    mults = [n for n in walk_function(seq.node) if isinstance(n, ast.AugAssign) and isinstance(n.op, ast.Mult) and "prefactor" in unparse(n.value)]
+                "sequential amplitude = coefficient x reduce(mul, partial decays of all nodes) [x prefactor]", None if ok else sorted(c for c in calls if "::" not in c))
+    mults = [n for n in walk_function(seq.node) if isinstance(n, ast.AugAssign) and isinstance(n.op, ast.Mult) and "__generate_amplitude_prefactor" in _def_calls(tree, seq, rd, n.value)]
     ctx.verdict(len(mults) == 1, "R-FOLD", f"{seq.qual}::prefactor-multiplies", tree.loc(seq.node), "the parity prefactor multiplies the whole sequential amplitude")
     red = [n for n in walk_function(seq.node) if isinstance(n, ast.Call) and _fold_name(n) == "reduce"]
     ok = len(red) == 1 and unparse(red[0].args[0]) in {"operator.mul", "mul"}
     ctx.verdict(ok, "R-FOLD", f"{seq.qual}::reduce-mul", tree.loc(seq.node), "the per-node factors are combined with operator.mul")
     top = tree.func(f"{BUILDER}.__formulate_top_expression")
+    trd = RD(top.node)
     ps = [n for n in walk_function(top.node) if isinstance(n, ast.Call) and unparse(n.func) == "PoolSum"]
-    ok = len(ps) == 1 and unparse(ps[0].args[0]).replace(" ", "") == "sp.Abs(amplitude)**2"
+    ok = False
+    if len(ps) == 1 and ps[0].args:
+        a0 = ps[0].args[0]
+        if isinstance(a0, ast.BinOp) and isinstance(a0.op, ast.Pow) and unparse(a0.right) == "2" and isinstance(a0.left, ast.Call) and unparse(a0.left.func) in {"sp.Abs", "Abs", "abs"} and len(a0.left.args) == 1:
+            ok = "formulate_amplitude" in _def_calls(tree, top, trd, a0.left.args[0])
     ctx.verdict(ok, "R-FOLD", f"{top.qual}::abs-squared", tree.loc(top.node), "intensity = PoolSum(|coherent amplitude|^2, outer spin projections)",
                 None if ok else (unparse(ps[0].args[0]) if ps else "no PoolSum"))
-    for qual, factors in ((f"{BUILDER}._formulate_partial_decay", {"wigner_d", "dynamics"}), (f"{HEL}::CanonicalAmplitudeBuilder._formulate_partial_decay", {"cg_coefficients", "amplitude"})):
+    for qual, factors in ((f"{BUILDER}._formulate_partial_decay", {"formulate_isobar_wigner_d", "__formulate_dynamics"}), (f"{HEL}::CanonicalAmplitudeBuilder._formulate_partial_decay", {"formulate_isobar_cg_coefficients", "_formulate_partial_decay"})):
         fn = tree.func(qual)
+        frd = RD(fn.node)
         bad = []
         for r in walk_function(fn.node):
             if isinstance(r, ast.Return) and r.value is not None:
-                leaves = set()
+                leaves: list = []
                 ok_shape = _product_leaves(r.value, leaves)
-                if not ok_shape or not factors <= leaves:
+                got = set()
+                for leaf in leaves:
+                    got |= {c for c in _def_calls(tree, fn, frd, leaf) if "::" not in c}
+                if not ok_shape or not factors <= got:
                     bad.append(unparse(r.value))
-        ctx.verdict(not bad, "R-FOLD", f"{qual}::product", tree.loc(fn.node), f"{qual.split('::')[-1]} returns the product containing {sorted(factors)}", bad or None)
+        ctx.verdict(not bad, "R-FOLD", f"{qual}::product", tree.loc(fn.node), f"{qual.split('::')[-1]} returns the product of the results of {sorted(factors)}", bad or None)
     reg = tree.func(f"{BUILDER}.__register_amplitudes")
+    rrd = RD(reg.node)
     comp_stores = [n for n in walk_function(reg.node) if isinstance(n, ast.Assign) and isinstance(n.targets[0], ast.Subscript) and "components" in unparse(n.targets[0])]
-    ok = len(comp_stores) == 1 and unparse(comp_stores[0].value).replace(" ", "") == "sp.Abs(expression)**2"
+    ok = False
+    if len(comp_stores) == 1:
+        v = comp_stores[0].value
+        if isinstance(v, ast.BinOp) and isinstance(v.op, ast.Pow) and unparse(v.right) == "2" and isinstance(v.left, ast.Call) and unparse(v.left.func) in {"sp.Abs", "Abs"}:
+            ok = "__formulate_topology_amplitude" in _def_calls(tree, reg, rrd, v.left.args[0])
     ctx.verdict(ok, "R-FOLD", f"{reg.qual}::component", tree.loc(reg.node), "component I_{...} = |sum over the topologies of the group|^2")
 
 
-def _product_leaves(node: ast.AST, out: set) -> bool:
+def _product_leaves(node: ast.AST, out: list) -> bool:
     if isinstance(node, ast.BinOp) and isinstance(node.op, ast.Mult):
         return _product_leaves(node.left, out) and _product_leaves(node.right, out)
-    if isinstance(node, ast.Name):
-        out.add(node.id)
+    if isinstance(node, (ast.Name, ast.Call)):
+        out.append(node)
         return True
     return False
 
